@@ -338,13 +338,11 @@ theorem nameLoop_gen : ∀ (fuel : Nat) (r r' : Rd) (buf : Bytes) (p en : Nat) (
       obtain ⟨⟨l, r2⟩, e3, e4⟩ := bind_ok_inv e2
       obtain ⟨k2, _, _, _, a2, _⟩ := readTL_gen R r1 r2 buf _ l a1 e3
       simp only [] at e4
-      split at e4
-      · cases e4
-      · obtain ⟨⟨v, r3⟩, e5, e6⟩ := bind_ok_inv e4
-        obtain ⟨_, _, a3⟩ := readBuf_gen R r2 r3 buf _ l v a2 e5
-        simp only [] at e6
-        obtain ⟨p', hp', a4⟩ := ih r3 r' buf _ en _ n _ s' a3 e6
-        exact ⟨p', by omega, a4⟩
+      obtain ⟨⟨v, r3⟩, e5, e6⟩ := bind_ok_inv e4
+      obtain ⟨_, _, a3⟩ := readBuf_gen R r2 r3 buf _ l v a2 e5
+      simp only [] at e6
+      obtain ⟨p', hp', a4⟩ := ih r3 r' buf _ en _ n _ s' a3 e6
+      exact ⟨p', by omega, a4⟩
 
 theorem readNameField_gen (r r' : Rd) (buf : Bytes) (p l : Nat) (n : Name) (s' : Nat) (h : At r buf p)
     (e : readNameField r l = .ok (n, s', r')) : ∃ p', p ≤ p' ∧ At r' buf p' := by
@@ -541,13 +539,11 @@ theorem dataLoop_inv (V : Bytes) : ∀ (fuel : Nat) (st : DataSt) (q : Nat) (r :
       obtain ⟨⟨l, r2⟩, e3, e4⟩ := bind_ok_inv e2
       obtain ⟨h2, hl, _, _, a2, l2⟩ := readTL_gen R r1 r2 V _ l a1 e3
       simp only [] at e4
-      split at e4
-      · cases e4
-      · obtain ⟨⟨⟨st1, q1⟩, r3⟩, e5, e6⟩ := bind_ok_inv e4
-        simp only [dataBody] at e5
-        obtain ⟨p3, _, a3, j3⟩ := ordLoop_inv R R2 V typ l p (p + h1 + h2) h1 h2 ht hl rfl 9 q st r2 a2 l2 hj (by omega)
-          st1 q1 r3 e5
-        exact ih st1 q1 r3 p3 a3 j3 st' q' r' e6
+      obtain ⟨⟨⟨st1, q1⟩, r3⟩, e5, e6⟩ := bind_ok_inv e4
+      simp only [dataBody] at e5
+      obtain ⟨p3, _, a3, j3⟩ := ordLoop_inv R R2 V typ l p (p + h1 + h2) h1 h2 ht hl rfl 9 q st r2 a2 l2 hj (by omega)
+        st1 q1 r3 e5
+      exact ih st1 q1 r3 p3 a3 j3 st' q' r' e6
 
 end
 
